@@ -4,42 +4,45 @@ import (
 	"bytes"
 	"context"
 	_ "crypto/sha256"
-	"encoding/json"
+	_ "crypto/sha512"
 	"fmt"
-	"os"
+	"time"
 
-	"github.com/opencontainers/go-digest"
-	ocispec "github.com/opencontainers/image-spec/specs-go/v1"
-	"oras.land/oras-go/v2/content/oci"
+	"oras.land/oras-go/v2/verifharness/copymon"
+	"oras.land/oras-go/v2/verifharness/evidence"
+	"oras.land/oras-go/v2/verifharness/stores"
 )
 
 func main() {
 	ctx := context.Background()
-	dir, _ := os.MkdirTemp("", "dbg")
-	defer os.RemoveAll(dir)
-	s, _ := oci.New(dir)
-	s.AutoGC = true
-	cfg := []byte("{}cfg")
-	lay := []byte("layer")
-	cd := ocispec.Descriptor{MediaType: "application/vnd.oci.image.config.v1+json", Digest: digest.FromBytes(cfg), Size: int64(len(cfg))}
-	ld := ocispec.Descriptor{MediaType: ocispec.MediaTypeImageLayer, Digest: digest.FromBytes(lay), Size: int64(len(lay))}
-	m := ocispec.Manifest{MediaType: ocispec.MediaTypeImageManifest, Config: cd, Layers: []ocispec.Descriptor{ld}}
-	m.SchemaVersion = 2
-	mb, _ := json.Marshal(m)
-	md := ocispec.Descriptor{MediaType: ocispec.MediaTypeImageManifest, Digest: digest.FromBytes(mb), Size: int64(len(mb))}
-	s.Push(ctx, cd, bytes.NewReader(cfg))
-	r, err := s.Resolve(ctx, cd.Digest.String())
-	fmt.Println("resolve", r.MediaType, err)
-	fmt.Println("tag", s.Tag(ctx, r, "sig"))
-	if len(os.Args) > 1 {
-		fmt.Println("gc", s.GC(ctx))
+	rng := evidence.RandFor(23, "c04-acct", 8494)
+	c := copymon.GenCase(rng, copymon.GenOpts{MaxNodes: 100, APIs: []string{"Copy", "CopyGraph", "CopyGraph", "ExtendedCopyGraph"}, MaxDelay: 1500 * time.Microsecond, RaceWriter: true, Trees: true, OptionalCB: true})
+	g := c.G
+	h, err := stores.New("remote", c.Profile)
+	fmt.Println(err)
+	for _, id := range g.TopoChildrenFirst() {
+		nd := g.Nodes[id]
+		err := h.Target.Push(ctx, nd.Desc, bytes.NewReader(nd.Bytes))
+		if err != nil {
+			fmt.Println("push", id, nd.Kind, err)
+		}
+		if id == 88 || id == 87 {
+			ok, e := h.Target.Exists(ctx, nd.Desc)
+			fmt.Println("exists", id, ok, e)
+		}
 	}
-	s.Push(ctx, ld, bytes.NewReader(lay))
-	s.Push(ctx, md, bytes.NewReader(mb))
-	fmt.Println("untag", s.Untag(ctx, "sig"))
-	fmt.Println("delete", s.Delete(ctx, md))
-	for _, d := range []ocispec.Descriptor{cd, ld, md} {
-		ok, _ := s.Exists(ctx, d)
-		fmt.Println(d.MediaType, ok)
+	r := h.Reg.Repo("test/repo")
+	_, ok := r.Manifests[g.Nodes[88].Desc.Digest]
+	fmt.Println("88 in manifests:", ok, len(r.Manifests), len(r.Blobs))
+	_, okb := r.Blobs[g.Nodes[88].Desc.Digest]
+	fmt.Println("88 in blobs:", okb)
+	for _, rec := range h.Reg.Log() {
+		if len(rec.Path) > 0 && (bytes.Contains([]byte(rec.Path), []byte("7dbc18dd")) || bytes.Contains([]byte(rec.RawQuery), []byte("7dbc18dd"))) {
+			fmt.Println(rec.Method, rec.Path, rec.RawQuery, rec.Status)
+		}
 	}
+}
+
+func init() {
+	defer func() { recover() }()
 }
